@@ -44,7 +44,10 @@ class BaseDlmsData(AbstractDlmsData):
         out.append(self.TAG)
         value_bytes = self.value_to_bytes()
         if self.LENGTH == VARIABLE_LENGTH:
-            out.append(len(value_bytes))
+            # imported here since a_xdr imports this module.
+            from dlms_cosem.a_xdr import encode_variable_integer
+
+            out.extend(encode_variable_integer(len(value_bytes)))
         out.extend(value_bytes)
         return bytes(out)
 
@@ -167,7 +170,7 @@ class IntegerData(BaseDlmsData):
         return cls(value=int.from_bytes(bytes_data, "big", signed=True))
 
     def value_to_bytes(self) -> bytes:
-        return self.value.to_bytes(1, "big")
+        return self.value.to_bytes(1, "big", signed=True)
 
 
 @attr.s(auto_attribs=True)
